@@ -65,10 +65,24 @@ def build_harness():
     return BIN
 
 
+class HarnessCrash(Exception):
+    """the harness PROCESS died from a signal while driving the crate (SIGABRT: a panic inside a destructor that runs during unwinding,
+    or a failed allocation; SIGSEGV: stack overflow).  The executors catch ordinary panics themselves; what kills the whole process is
+    behaviour of the code under test, and 'no panic / no abort' is what the properties demand - so this is an observation, not tool
+    trouble.  (On the unchanged tree no executor dies.)"""
+
+    def __init__(self, args, rc, stderr):
+        Exception.__init__(self, "harness %s killed by signal %d" % (args[:1], -rc))
+        self.hargs, self.rc, self.stderr = args, rc, stderr
+
+
 def run_harness(args, timeout=3600, stdin=None):
     t0 = time.time()
     p = subprocess.run([BIN] + args, stdout=subprocess.PIPE, stderr=subprocess.PIPE, text=True,
                        timeout=timeout, input=stdin)
+    if p.returncode in (-6, -11, -4, -7, 134, 139):
+        log(p.stderr[-3000:])
+        raise HarnessCrash(args, p.returncode if p.returncode < 0 else -(p.returncode - 128), p.stderr[-3000:])
     if p.returncode not in (0,):
         log(p.stderr[-3000:])
         raise ToolTrouble("harness %s exited %d" % (args[:1], p.returncode))
